@@ -227,7 +227,10 @@ def start_kwargs(ctx, state=None):
             kw["cluster_center_inds"] = pairs
             kw["X_lengths"] = L
         else:
-            kw["cluster_center_inds"] = np.array(cidx, dtype=np.int64) if case["container"] == "ndarray" else list(cidx)
+            # (ndarray: every second time in the narrowest unsigned type that holds these ids - an id is an id)
+            narrow = np.uint8 if max(cidx) < 256 else np.uint16
+            kw["cluster_center_inds"] = (np.array(cidx, dtype=np.int64 if sum(cidx) % 2 else narrow)
+                                         if case["container"] == "ndarray" else list(cidx))
     if start in ("state", "all"):
         kw["assignments"] = np.array(lab, dtype=np.int64)
         kw["distances"] = np.array(dist, dtype=np.float64)
@@ -676,7 +679,15 @@ def run_many_frames(case):
     else:
         start = [int(i) for i in rng.choice(n, size=k, replace=False)]
         c0, lab0, dist0 = cost_of(start)
-        r = km_mod.kmedoids(X, M, cluster_center_inds=list(start), assignments=lab0.astype(np.int64), distances=dist0.copy(),
+        # the warm-start state as a restart file holds it: center indices in the narrowest unsigned type that holds the
+        # CURRENT ones (every second case; sorted start so that small ids are common), labels in a narrow type too
+        st_arg = list(start)
+        if case["seed"] % 2 == 0:
+            low = sorted(int(i) for i in rng.choice(250, size=k, replace=False))
+            start = low
+            c0, lab0, dist0 = cost_of(start)
+            st_arg = np.array(start, dtype=np.uint8)
+        r = km_mod.kmedoids(X, M, cluster_center_inds=st_arg, assignments=lab0.astype(np.int64 if case["seed"] % 3 else np.int16), distances=dist0.copy(),
                             n_iters=case["sweeps"], random_state=case["seed"] % (2 ** 31))
     idx = [int(i) for i in np.asarray(r.center_indices).ravel()]
     require(len(idx) == k and len(set(idx)) == k, "the number of clusters was not kept", got=len(set(idx)), want=k)
